@@ -280,7 +280,7 @@ func runC13(c *Ctx) {
 	if os, _ := opensslSeeds(c, rng, 2); len(os) > 0 {
 		blobs = append(blobs, os...)
 	}
-	nImg := c.N(900, 40000)
+	nImg := c.N(900, 200000)
 	for i := 0; i < nImg; i++ {
 		img := pick(rng, images)
 		if len(img) > 8000 && rng.Intn(4) != 0 {
@@ -292,7 +292,7 @@ func runC13(c *Ctx) {
 	for _, img := range images {
 		eval("authenticode.Parse+all", img, "valid")
 	}
-	nSig := c.N(700, 30000)
+	nSig := c.N(700, 150000)
 	for i := 0; i < nSig; i++ {
 		s := pick(rng, blobs)
 		var m []byte
